@@ -13,6 +13,7 @@ def run(facts, tier):
     obs, rules = [], []
     for name, f, mn, text in (
         ("purge chain", F.purge_chain, 5, "the amount a purge subtracts is the amount returned up the chain and added to offset, on every path"),
+        ("single-pass subtraction", F.single_pass_subtract, 2, "the reverse purge compares every visited slot with the purge amount exactly once (slots refilled by hash_delete hold entries that were already reduced)"),
         ("bound algebra", F.bounds, 6, "lower/upper/estimate/maximum-error formulas; result filter pairing; descending order"),
         ("bookkeeping", F.bookkeeping, 5, "update order; merge adds offsets and the total computed before the replay; emptiness considers total weight"),
         ("probe displacement", F.probe_displacement, 1, "hash_delete measures displacement with a wrapping step counter"),
@@ -22,6 +23,7 @@ def run(facts, tier):
         ("emptiness predicate support", lambda fa: predicates.obligations(fa, ['frequent_items_sketch']), 3, "the emptiness predicate still consults every field it depended on in the reviewed tree (spec/predicates.json)"),
         ("tautologies", lambda fa: generic_lints.tautologies(fa, ('fi/',)), 2, "no comparison / assignment / min-max with two identical operands, no if-else with identical arms"),
         ("duplicate operands", lambda fa: generic_lints.duplicate_conjuncts(fa, ('fi/',)), 2, "no logical chain tests the same operand twice (copy-paste of the wrong peer)"),
+        ("moves from lvalue operands", lambda fa: generic_lints.moves_from_lvalue_operands(fa, ['fi']), 1, "in the lvalue instantiation of a forwarding-reference operand nothing is std::move-d out of the operand (conditional_forward copies there): a sketch passed to be read keeps its items / summaries"),
         ("overload twins", lambda fa: twins.overload_twins(fa, ('fi/',)), 1, "const& and && overloads of one operation have identical bodies modulo std::move/forward"),
         ("structural triggers", lambda fa: triggers.obligations(fa, ['reverse_purge_hash_map']), 3, "the comparisons that decide when to resize / rebuild / compact / purge / promote keep their reviewed boundary (operator and constants)"),
     ):
